@@ -1835,6 +1835,7 @@ def judgeC18 (ops : List OpRec) : List String :=
     runs away; evaluated on the implementation's results and the harness's notes alone -/
 def judgeC13 (ops : List OpRec) : List String :=
   let s := ops.foldl (fun (s : JSt) (op : OpRec) =>
+    let s := trackSettings s op
     let noteOf (k : String) : Option String := (op.notes.find? (fun (n : List String) => n.head? == some k)).map fun (n : List String) => " ".intercalate (n.drop 1)
     let s := if op.result == "panic" then
         let loc := (noteOf "panic-at").getD "?"
@@ -1843,7 +1844,13 @@ def judgeC13 (ops : List OpRec) : List String :=
         viol s s!"C13-panic-in-{file}" op s!"panicked at {loc}"
       else s
     let s := if op.result == "bigalloc" then viol s "C13-allocation-1GiB" op s!"asked for a single allocation of {(noteOf "alloc-request").getD "?"} bytes" else s
-    let s := match noteOf "request-cap" with
+    -- (an object built from hosts runs its creation with the default retry limit of 120 attempts: many requests are its right)
+    let defaultLimits := match op.toks with
+      | "consumer_create" :: from_ :: _ => from_ != "client"
+      | "producer_create" :: from_ :: _ => from_ != "client"
+      | _ => false
+    -- (and so does a client whose retry limit was left at, or set to, ten attempts or more)
+    let s := match (if defaultLimits || s.retryMax ≥ 10 then none else noteOf "request-cap") with
       | some n => viol s "C13-request-storm" op s!"sent {n} requests in one call and was still going (every retry limit in these histories is below 10)"
       | none => s
     let s := match noteOf "slow-op" with
